@@ -383,3 +383,77 @@ Proof.
   - rewrite !word_of_flat_map by (try exact Hf; rewrite ?rev_length; lia).
     rewrite rev_nth by lia. rewrite Hl. reflexivity.
 Qed.
+
+(* ========================================================================================== *)
+(* CMAC sub-keys: the two-halves-with-carry doubling of the assembly is SP 800-38B doubling      *)
+(* (bit-level lemmas in Proofs/KeyPrepBits.v)                                                    *)
+(* ========================================================================================== *)
+From IMB Require Import Proofs.KeyPrepBits Proofs.KeyPrepDES Spec.DES.
+
+Lemma cmac_dbl_lib_eq_all b : cmac_dbl_lib b = cmac_dbl b.
+Proof.
+  unfold cmac_dbl_lib, cmac_dbl. cbv zeta. rewrite cmac_dbl_lib_N_eq_all. reflexivity.
+Qed.
+
+Theorem cmac_subkey_doubling_thm key :
+  let L := aes_enc_rk (aes_key_expand key) (zeros 16) in
+  kp_cmac_subkeys key = (cmac_dbl L, cmac_dbl (cmac_dbl L)) /\
+  kp_cmac_subkeys key = cmac_subkeys key.
+Proof.
+  cbv zeta. unfold kp_cmac_subkeys, cmac_subkeys, cmac_subkeys_gen. cbv zeta.
+  rewrite !cmac_dbl_lib_eq_all. split; reflexivity.
+Qed.
+
+(* ========================================================================================== *)
+(* DES: the library image is the bit-reversed 6-bit groups of the symbolic key-bit selection     *)
+(* ========================================================================================== *)
+Theorem des_keysched_is_selection_thm key :
+  des_key_schedule_std key = des_key_schedule_sel (be_to_N key) /\
+  kp_des_keysched key = flat_map des_subkey_lib_bytes (des_key_schedule_sel (be_to_N key)).
+Proof.
+  unfold kp_des_keysched, des_key_schedule_lib, des_key_schedule_std.
+  rewrite des_key_schedule_is_selection. split; reflexivity.
+Qed.
+
+(* ---- packaged statements for Props/Properties_C11.v ---- *)
+From IMB Require Import Spec.ZUC Spec.SNOW3G Spec.KASUMI.
+
+Theorem cmac_subkey_doubling_all :
+  (forall key : bytes,
+     let L := aes_enc_rk (aes_key_expand key) (zeros 16) in
+     kp_cmac_subkeys key = (cmac_dbl L, cmac_dbl (cmac_dbl L)) /\
+     kp_cmac_subkeys key = cmac_subkeys key) /\
+  (forall b : bytes, cmac_dbl_lib b = cmac_dbl b) /\
+  (forall x i : N, (x < 2^128)%N -> (i < 128)%N ->
+     N.testbit (cmac_dbl_lib_N x) i =
+     xorb (if (i =? 0)%N then false else N.testbit x (i - 1)) (N.testbit x 127 && N.testbit 135 i)).
+Proof.
+  split; [exact cmac_subkey_doubling_thm|]. split; [exact cmac_dbl_lib_eq_all|exact cmac_dbl_bits].
+Qed.
+
+Theorem des_pc1_pc2_thm :
+  (forall key : bytes,
+     des_key_schedule_std key = des_key_schedule_sel (be_to_N key) /\
+     kp_des_keysched key = flat_map des_subkey_lib_bytes (des_key_schedule_sel (be_to_N key))) /\
+  length des_key_sel = 16%nat /\
+  Forall (fun sel => length sel = 48%nat /\ NoDup sel /\
+                     Forall (fun t => (1 <= t <= 64)%nat /\ Nat.modulo t 8 <> 0%nat) sel) des_key_sel.
+Proof. split; [exact des_keysched_is_selection_thm|exact des_key_sel_facts]. Qed.
+
+Theorem iv_gen_layouts_thm :
+  (forall count bearer dir, kp_zuc_eea3_iv_gen count bearer dir = zuc_eea3_iv_gen count bearer dir) /\
+  (forall count bearer dir, kp_zuc_eia3_iv_gen count bearer dir = zuc_eia3_iv_gen count bearer dir) /\
+  (forall count bearer dir, kp_snow3g_f8_iv_gen count bearer dir = snow3g_f8_iv_gen count bearer dir) /\
+  (forall count fresh dir, kp_snow3g_f9_iv_gen count fresh dir = snow3g_f9_iv_gen count fresh dir) /\
+  (forall count bearer dir, kp_kasumi_f8_iv_gen count bearer dir = kasumi_f8_iv_gen count bearer dir) /\
+  (forall count fresh, kp_kasumi_f9_iv_gen count fresh = kasumi_f9_iv_gen count fresh).
+Proof.
+  repeat split;
+  [exact kp_zuc_eea3_iv_gen_eq|exact kp_zuc_eia3_iv_gen_eq|exact kp_snow3g_f8_iv_gen_eq
+  |exact kp_snow3g_f9_iv_gen_eq|exact kp_kasumi_f8_iv_gen_eq|exact kp_kasumi_f9_iv_gen_eq].
+Qed.
+
+Theorem hash_output_sizes_thm :
+  forall (X : md_hash) (blk msg : bytes), In X hmac_hashes ->
+  length (kp_one_block X blk) = md_state_bytes X /\ length (md_full X msg) = md_dlen X.
+Proof. intros X blk msg HX. split; [apply kp_one_block_length|apply md_digest_length]; exact HX. Qed.
